@@ -56,6 +56,13 @@ Proof.
 Qed.
 
 (* NFKD of a sentence: the words joined by U+0020 *)
+Lemma valid_join sep c ws : is_sep sep c -> words_ok ws -> utf8_valid (join sep ws) = true.
+Proof.
+  intros [Hv _] Hws. induction Hws as [|w rest Hw Hrest IH]; [reflexivity|].
+  destruct rest as [|x rest']; [cbn [join]; exact (wok_valid w Hw)|].
+  rewrite join_cons. apply utf8_valid_app; [exact (wok_valid w Hw)|]. apply utf8_valid_app; [exact Hv|exact IH].
+Qed.
+
 Theorem nfkd_join sep c ws : is_sep sep c -> words_ok ws -> nfkd (join sep ws) = join [x20] ws.
 Proof.
   intros Hsep Hws. unfold nfkd. rewrite (utf8_decode_join sep c ws Hsep Hws).
